@@ -86,6 +86,11 @@ def _bearer_id(bearer: att.Bearer) -> str:
         return f'[0x{bearer.handle:04X}]'
 
 
+# Server-to-client PDU that has no entry in att.Opcode: it is a notification, a
+# peer that sends it expects no answer
+ATT_MULTIPLE_HANDLE_VALUE_NOTIFICATION = 0x23
+
+
 def _is_request(op_code: int) -> bool:
     '''
     Whether a PDU received with this op code must be answered: anything that is not
@@ -99,6 +104,7 @@ def _is_request(op_code: int) -> bool:
             att.Opcode.ATT_HANDLE_VALUE_NOTIFICATION,
             att.Opcode.ATT_HANDLE_VALUE_INDICATION,
             att.Opcode.ATT_HANDLE_VALUE_CONFIRMATION,
+            ATT_MULTIPLE_HANDLE_VALUE_NOTIFICATION,
         )
     )
 
